@@ -384,6 +384,27 @@ fn seq_family(prop: &str) -> i32 {
         }
         scen.push(stats_json(&format!("{} (130 L2 tables) salt0", crate::hist::Scenario::name(&sc)), &st));
     }
+    // L2 slices bigger than a block (1 KiB slices over 512-byte blocks), table on disk already: a cached mapping
+    // update in one block of the slice, then a copy-on-write (in-place slice write) whose entry is in the other block
+    {
+        let g = images::G10;
+        let (cs, bs, sl) = (g.cs(), g.bs(), g.sl());
+        let w = |off: u64, len: u64, tag: u32| Op::Write { off, len: len as usize, tag };
+        let alpha = vec![w(sl, bs, 1), w(0, bs, 2), w(cs + bs, bs, 3), w(sl + cs, cs, 4), Op::Flush, Op::Reopen];
+        for img in images::initial_images(&g, &["compressed", "backing"]) {
+            qcow2_rs::verif::set_order_salt(0);
+            let sc = SeqScenario::new(img, g.cfg_alt(), g.cfg_small(), "alt", alpha.clone(), oracles.clone());
+            let lim = BfsLimits { depth: if thorough { 5 } else { 4 }, max_states: 3_000_000, deadline: deadline_in(if thorough { 100 } else { 6 }) };
+            let st = bfs(&sc, &lim, &mut viol);
+            states += st.states;
+            trans += st.transitions;
+            outcomes += st.distinct_outcomes;
+            if st.capped || st.depth_completed < st.depth_target {
+                all_complete = false;
+            }
+            scen.push(stats_json(&format!("{} (slice = 2 blocks) salt0", crate::hist::Scenario::name(&sc)), &st));
+        }
+    }
     // host space one allocation short of a new refcount block: partial allocations, refblock creation
     {
         let gw = crate::extra::g9_wide(3);
